@@ -132,12 +132,15 @@ CHECKS = {
          "BigUint::to_f64 / compiler-rt powi by repeated squaring / IEEE multiplication / the std float parser, all expressed through one correctly-rounded primitive rne computed in exact rational "
          "arithmetic) compared with the 64 result bits of the real code on every generated decimal; kernel-checked: C14_rne_nearest (rne is round-to-nearest: relative error <= 2^-53 in the normal "
          "range, absolute error <= 2^-1075 below it, or infinity), C14_toF64_integer (the scale-0 path is the sign bit plus the correctly rounded magnitude), C14_toF64_zero; "
-         "C14_powi_ten_accurate (all 309 finite powi(10,k) within 7*2^-53, kernel-evaluated table), C14_toF64_negative_scale_tolerance and C14_toF64_positive_scale_tolerance: for EVERY coefficient and "
-         "scale on the powi path (trimmed exponent <= 308) and on the parser path (trimmed exponent 1..2^31, underflow shortcut included) the model's result is infinity or within 2^-48 relative "
-         "(one subnormal step below 2^-1022) of the exact value - the roundings and the digits dropped by the trimming loop composed in exact rational arithmetic.",
-         NOTE_COMMON + " The to_f64 tolerance theorems hold for every digit estimate dc under the premise that trimming leaves >= 25 digits; the code's estimate is an f64 product (Lean Float, opaque to the "
-         "kernel), so that premise is observed per generated decimal (evidence tags +keeps25 / +keeps-fewer / +estimate-differs) rather than proved for it; powi exponents above 308 (result infinity) and "
-         "scales beyond the i32 range are covered by the bit-exact correspondence and the oracle only.",
+         "C14_powi_ten_accurate (all 309 finite powi(10,k) within 7*2^-53, kernel-evaluated table), C14_digit_estimate_keeps25 (the code's f64 digit estimate floor((bits+1) as f64 * LOG10_2), "
+         "computed through the proved rounding primitive, never trims below 25 digits, for every coefficient below 2^(2^39-2); uses 10^97879 <= 2^325147), C14_toF64_negative_scale and "
+         "C14_toF64_positive_scale: for EVERY such coefficient and every scale on the powi path (trimmed exponent <= 308) and on the parser path (trimmed exponent 1..2^31, underflow shortcut "
+         "included) the model's result is infinity or within 2^-48 relative (one subnormal step below 2^-1022) of the exact value - three roundings and the digits dropped by the trimming loop "
+         "composed in exact rational arithmetic. The model no longer contains any hardware float: every step is kernel-transparent.",
+         NOTE_COMMON + " Modelled rather than verified: that BigUint::to_f64, u64 as f64, the f64 multiplication, compiler-rt powi and str::parse::<f64> are the correctly rounded operations "
+         "the model says (F64.rne) - tied by the bit-exact comparison of all 64 result bits on every generated decimal. Not yet theorems: powi exponents above 308 (result infinity) and "
+         "scales beyond the i32 range (bit-exact correspondence and oracle only); the driver also compares the rne-based digit estimate with Lean's hardware-float computation on every case "
+         "(evidence tag +hardware-estimate-differs, never seen).",
          "Lean 4 proof (all bit patterns; to_f64 tolerance composed from a proved round-to-nearest primitive) + bit-exact to_f64 model + exact-rational oracle + differential correspondence", "DESIGN.md §5 C14"),
  "C20": ("Translator half: the extractor re-reads on every run which identifier each implicit-default site references (Context::default, RoundingMode::default, round, sqrt/cbrt/inverse, division, "
          "exp target and term precision, Display thresholds and integer no-padding limit) and the kernel-checked theorem C20_default_sites_ok fails if any of them is a literal instead of the "
